@@ -23,6 +23,7 @@ import YataProofs.Indicators.StochRange
 import YataProofs.Indicators.Realises2
 import YataProofs.Indicators.CMFRun
 import YataProofs.Indicators.StochRun
+import YataProofs.Indicators.RSIRun
 import YataProofs.Numeric.TSIRange
 import YataProofs.Numeric.MeanAbsDev
 namespace Yata.C12
@@ -179,6 +180,13 @@ theorem C12_stochastic_run {P : Nat} (c : StochCfg) (k0 : Candle ℚ) (hv : Stoc
 theorem C12_every_smooth_kind_hull {P : Nat} (k : MAKind) (n : Nat) (v : ℚ) (hk : smoothKind k = true) (hv : validLen P k n) :
     HullFn v (specOf k n v) := hullFn_of_kind k n v hk hv
 
+/-- RSI over whole streams, from its constructor, for every non-overshooting kind: on every candle stream no step panics and
+    the value is in [0, 1] at every step -/
+theorem C12_rsi_run {P : Nat} (c : RSICfg) (k0 : Candle ℚ) (hv : RSI.validate c = true)
+    (h1 : validLen P c.ma.kind c.ma.length) (s1 : smoothKind c.ma.kind = true) (cs : List (Candle ℚ)) :
+    ∃ s0 outs s', RSI.init P c k0 = .ok s0 ∧ runM RSI.vals s0 cs = .ok (outs, s') ∧ outs.length = cs.length ∧
+      ∀ i (hi : i < outs.length), ∃ v, outs[i] = [v] ∧ 0 ≤ v.value ∧ v.value ≤ 1 := RSI.run_range c k0 hv h1 s1 cs
+
 theorem C12_tr_nonneg (c : Candle ℚ) (p : ℚ) (h : c.low ≤ c.high) : 0 ≤ c.trClose p := tr_nonneg c p h
 
 theorem C12_clv_range (c : Candle ℚ) (h1 : c.low ≤ c.close) (h2 : c.close ≤ c.high) : -1 ≤ c.clv ∧ c.clv ≤ 1 :=
@@ -217,3 +225,4 @@ end Yata.C12
 #print axioms Yata.C12.C12_cmf_reachable
 #print axioms Yata.C12.C12_stochastic_run
 #print axioms Yata.C12.C12_every_smooth_kind_hull
+#print axioms Yata.C12.C12_rsi_run
